@@ -4,7 +4,7 @@ State = heap (root id -> value) + threads (explicit frame stacks) + path conditi
 Values are immutable; stores rebuild the spine.  Scalars are concrete (class I / bool) whenever
 possible and z3 terms otherwise.  Branches on symbolic scalars fork the state when z3 finds both
 sides feasible under the path condition."""
-import re, time, itertools
+import re, time, itertools, os
 import z3
 from .mir import Unmodelled, blocks_of, parse_place, split_top
 
@@ -459,6 +459,12 @@ class Machine:
                     path.append(iv.v); pend = None
                 elif pr[0] == 'cidx':
                     path.append(pr[1]); pend = None
+                elif pr[0] == 'cidx_end':
+                    seq = s.load(st, root, path)
+                    if not isinstance(seq, Agg): raise InternalError('index from the end into a non-sequence')
+                    path.append(len(seq.f) - pr[1]); pend = None
+                elif pr[0] == 'sub':
+                    raise Unmodelled('subslice used as a place to write through (only `&place[a:b]` is supported)')
             else:
                 if pend is not None:
                     if pend.startswith('variant#'): path.append((pend, pr))
@@ -513,7 +519,7 @@ class Machine:
         """`const path::f::promoted[i]`: a 'static temporary hoisted out of f.  Its body (one block of assignments, no calls) is
         evaluated once per use; the locals it refers to stay allocated, as 'static data does"""
         tail = '::' + '::'.join(c.split('::')[-2:])
-        cands = [n for n in s.fns if n.startswith('const ') and n.endswith(tail)]
+        cands = [n for n in s.fns if n.startswith('const ') and (n.endswith(tail) or n == 'const ' + tail[2:])]
         if len(cands) > 1:
             own = [n for n in cands if s.fns[n].crate == fr.fn.crate]
             if own: cands = own
@@ -522,7 +528,10 @@ class Machine:
             loc = re.search(r'<impl at [^>]*>', fr.fn.name)
             if loc: cands = [n for n in cands if loc.group(0) in n] or cands
         if len(cands) != 1: return None
-        f = s.fns[cands[0]]; bl = blocks_of(f)
+        return s.eval_const_body(st, s.fns[cands[0]])
+
+    def eval_const_body(s, st, f):
+        bl = blocks_of(f)
         if len(bl) != 1: return None
         stmts, term = bl['bb0']
         if term[0] != 'return' or any(sm[0] not in ('assign', 'nop') for sm in stmts): return None
@@ -537,8 +546,13 @@ class Machine:
         k = op[0]
         if k == 'const':
             v = s.const(op[1])
-            if isinstance(v, Opaque) and v.tag.startswith('const:') and '::promoted[' in v.tag:
-                r = s.eval_promoted(st, fr, op[1])
+            if isinstance(v, Opaque) and v.tag.startswith('const:'):
+                if '::promoted[' in v.tag: r = s.eval_promoted(st, fr, op[1])
+                else:
+                    # a named const item whose body is more than `_0 = const X` (e.g. `&[&str]` tables): evaluate its block
+                    c = op[1]; last = c.split('::')[-1]
+                    f = s.fns.get('const ' + c) or next((s.fns[n] for n in s.fns if n.startswith('const ') and (n == 'const ' + last or n.endswith('::' + last))), None)
+                    r = s.eval_const_body(st, f) if f is not None else None
                 if r is not None: return r
             return v
         if k == 'fn': return FnItem(op[1])
@@ -560,6 +574,15 @@ class Machine:
         k = rv[0]
         if k == 'use': return s.operand(st, fr, rv[1])
         if k == 'ref':
+            base, proj, ty = rv[1]
+            if proj and isinstance(proj[-1], tuple) and proj[-1][0] == 'sub':
+                # &seq[a:b] (slice patterns): a read-only view, materialised as a copy of the elements
+                if 'mut' in (rv[2] if len(rv) > 2 else ''): raise Unmodelled('mutable subslice borrow')
+                root, path = s.resolve(st, fr, (base, proj[:-1], None)); seq = s.load(st, root, path)
+                if not isinstance(seq, Agg): raise InternalError('subslice of a non-sequence')
+                items = seq.items(); _, a, b, from_end = proj[-1]
+                part = items[a:len(items) - b] if from_end else items[a:b]
+                return Ref(st.alloc(Agg(seq.ty if seq.ty in ('Vec', 'VecDeque', 'array') else 'Vec', part)), [])
             root, path = s.resolve(st, fr, rv[1]); return Ref(root, path)
         if k == 'binop':
             a = s.operand(st, fr, rv[2]); b = s.operand(st, fr, rv[3])
@@ -572,6 +595,13 @@ class Machine:
                 if is_boolv(a): return b_not(a)
                 return I(~a.v, a.w) if isinstance(a, I) else simp(~a)
             if rv[1] == 'Neg': return I(-a.v, a.w) if isinstance(a, I) else simp(-a)
+            if rv[1] == 'PtrMetadata':
+                # metadata of a slice reference = its length
+                v = a
+                for _ in range(3):
+                    if isinstance(v, Ref): v = s.deref(st, v)
+                if isinstance(v, Agg) and v.ty in ('Vec', 'VecDeque', 'array'): return I(len(v.f), 64)
+                raise Unmodelled('PtrMetadata of ' + repr(v)[:60])
             raise Unmodelled('unop ' + rv[1])
         if k == 'discr':
             root, path = s.resolve(st, fr, rv[1]); v = s.load(st, root, path)
@@ -793,7 +823,11 @@ class Machine:
         if outs is not None:
             s.stats.models[model_key(callee)] = s.stats.models.get(model_key(callee), 0) + 1
             return s.apply_outcomes(outs, th.name)
-        cc = th.stack[-1].fn.crate if th.stack and th.stack[-1].kind == 'mir' else None
+        # an enum variant (tuple-like) used as a function value: `.map_err(Error::Backend)`, `.map_or(Ok(()), Err)`
+        flat = strip_generics(callee); segs = [x for x in flat.split('::') if x]
+        if len(segs) >= 2 and segs[-2] in s.enums and segs[-1] in s.enums[segs[-2]]:
+            return s.apply_outcomes([('ret', st, mk_enum(segs[-2], segs[-1], list(args)))], th.name)
+        cc = next((f.fn.crate for f in reversed(th.stack) if f.kind == 'mir'), None)
         fn = s.local_fn(callee, cc)
         if fn is None: fn = s.dyn_fn(st, callee, args)
         if fn is None: fn = s.shim_fn(callee)
@@ -839,7 +873,7 @@ class Machine:
                 meth = meth + '_usize' if re.search(r'usize', callee) else '?'
         else:
             flat = callee
-            for _ in range(8): flat = re.sub(r'<[^<>]*>', '', flat)
+            flat = strip_generics(flat)
             segs = [x for x in flat.split('::') if x]
             if len(segs) < 2: return None
             pre = s._SHIM_PREFIX.get(segs[-2]); meth = segs[-1]
@@ -1097,7 +1131,7 @@ class Machine:
             tyname = type_head(mq.group(1)); last = mq.group(3); trait = type_head(mq.group(2))
         else:
             flat = callee
-            for _ in range(8): flat = re.sub(r'<[^<>]*>', '', flat)
+            flat = strip_generics(flat)
             segs = [x for x in flat.split('::') if x]
             last = segs[-1]; tyname = segs[-2] if len(segs) >= 2 else None
         cands = list(s.by_last.get(last, []))
@@ -1114,7 +1148,7 @@ class Machine:
                 if own: cands = own
             if len(cands) == 1: return cands[0]
         hint = s.env.resolve_hint(callee)
-        if hint: cands = [c for c in cands if hint in c]
+        if hint: cands = [c for c in cands if hint in c] or cands      # rustc prints unique item names without their module path
         if not mq:
             exact = [c for c in cands if c == callee or c.endswith('::' + '::'.join(x for x in [tyname, last] if x))]
             free = [c for c in cands if '<impl at' not in c]
@@ -1144,7 +1178,76 @@ class Machine:
             if len(c3) >= 1: c2 = c3
         if len(c2) > 1:
             c2 = s.env.disambiguate(callee, c2)
+        if len(c2) != 1 and mq:
+            # decide by the impl headers in the source: `impl<S: AsRef<str>> Trait for S` (a blanket impl names no concrete type)
+            hs = []
+            for c in all_cands:
+                h = s.impl_header(c)
+                if h is None or h['trait'] != trait: continue
+                if h['self'] == tyname or h['self'] in h['generics']: hs.append((h['self'] == tyname, c))
+            exact = [c for e, c in hs if e]
+            pick = exact if exact else [c for e, c in hs]
+            if len(pick) == 1: return pick[0]
         return c2[0] if len(c2) == 1 else None
+
+    _impl_cache = {}
+
+    def impl_header(s, name):
+        """{'trait': head or None, 'self': head, 'generics': [type parameter names]} of the impl block a function named
+        `...<impl at path:l1:c1: l2:c2>::f` sits in, read from the source the span points to"""
+        m = re.search(r'<impl at ([^:>]+):(\d+):(\d+): (\d+):(\d+)>', name)
+        if not m: return None
+        f = s.fns.get(name); crate = f.crate if f is not None else None
+        key = (crate, m.group(0))
+        if key in s._impl_cache: return s._impl_cache[key]
+        r = None
+        try:
+            from . import dump
+            base = dump.SHIM_DIR if crate == dump.SHIM else dump.REPO
+            lines = open(os.path.join(base, m.group(1))).read().split('\n')
+            l1, c1, l2, c2 = (int(m.group(i)) for i in (2, 3, 4, 5))
+            if l1 == l2: txt = lines[l1 - 1][c1 - 1:c2 - 1]
+            else: txt = '\n'.join([lines[l1 - 1][c1 - 1:]] + lines[l1:l2 - 1] + [lines[l2 - 1][:c2 - 1]])
+            txt = ' '.join(txt.split())
+            mm = re.match(r'^(?:unsafe\s+)?impl\b\s*(.*)$', txt)
+            if mm:
+                rest = mm.group(1); gens = []
+                if rest.startswith('<'):
+                    d = 0; end = None
+                    for i, ch in enumerate(rest):
+                        if ch == '<': d += 1
+                        elif ch == '>' and rest[i - 1] not in '-=':
+                            d -= 1
+                            if d == 0: end = i; break
+                    if end is not None:
+                        for part in split_top(rest[1:end], ','):
+                            part = part.strip()
+                            if part and not part.startswith("'") and not part.startswith('const '):
+                                gens.append(re.match(r'^(\w+)', part).group(1))
+                        rest = rest[end + 1:].strip()
+                rest = re.split(r'\swhere\s', rest)[0].strip()
+                # ' for ' at nesting depth 0
+                d = 0; cut = None
+                for i, ch in enumerate(rest):
+                    if ch in '<(': d += 1
+                    elif ch in '>)' and rest[i - 1] not in '-=': d -= 1
+                    elif d == 0 and rest.startswith(' for ', i): cut = i; break
+                if cut is None: r = {'trait': None, 'self': type_head(rest), 'generics': gens}
+                else: r = {'trait': type_head(rest[:cut].strip().lstrip('!')), 'self': type_head(rest[cut + 5:].strip()), 'generics': gens}
+        except Exception:
+            r = None
+        s._impl_cache[key] = r
+        return r
+
+
+def strip_generics(t):
+    """drop every <...> group (nesting aware; the '>' of -> and => does not close)"""
+    out = []; d = 0
+    for i, c in enumerate(t):
+        if c == '<': d += 1
+        elif c == '>' and (i == 0 or t[i - 1] not in '-='): d = max(0, d - 1)
+        elif d == 0: out.append(c)
+    return ''.join(out)
 
 
 def short(n):
@@ -1159,6 +1262,6 @@ def model_key(callee):
     r = _mk_cache.get(callee)
     if r is None:
         c = callee
-        for _ in range(8): c = re.sub(r'<[^<>]*>', '', c)
+        c = strip_generics(c)
         r = c[:80]; _mk_cache[callee] = r
     return r
